@@ -309,14 +309,23 @@ impl Scenario for RollbackReuse {
 
 pub struct RemoveFabric {
     pub faults: bool,
+    /// Judge the run for C01 (a peer whose fabric is gone gets no session, also after the fabric
+    /// index was taken by another fabric) instead of C07
+    pub c01: bool,
 }
 
 impl Scenario for RemoveFabric {
     fn property(&self) -> &'static str {
-        "C07"
+        if self.c01 {
+            "C01"
+        } else {
+            "C07"
+        }
     }
     fn name(&self) -> &'static str {
-        if self.faults {
+        if self.c01 {
+            "expelled-peer-after-index-reuse"
+        } else if self.faults {
             "remove-fabric-vs-traffic"
         } else {
             "remove-fabric-fault-free"
@@ -339,8 +348,10 @@ impl Scenario for RemoveFabric {
             CtlStep::ReadOnOff { dev: 0 },
         ];
         let mut b_script = vec![CtlStep::Sleep { ms: 5_000 }, CtlStep::Commission { dev: 0 }];
-        // B keeps reading around the removal instant
-        for _ in 0..12 {
+        // B keeps reading around the removal instant - or has gone quiet before it (and then still
+        // holds whatever it cached about its sessions when it comes back)
+        let b_reads = [12, 12, 1, 3][tape::choose(4) as usize];
+        for _ in 0..b_reads {
             b_script.push(CtlStep::ReadOnOff { dev: 0 });
             b_script.push(CtlStep::Sleep {
                 ms: 200 + tape::choose(8) * 250,
@@ -417,8 +428,10 @@ impl Scenario for RemoveFabric {
         });
         let mut out = Outcome::default();
         common_counters(&run, &mut out);
-        for (o, d) in &track.violations {
-            out.violate(o, d.clone());
+        if !self.c01 {
+            for (o, d) in &track.violations {
+                out.violate(o, d.clone());
+            }
         }
         let a = results(&run, 1);
         let b = results(&run, 2);
@@ -451,13 +464,16 @@ impl Scenario for RemoveFabric {
                     if (*name == "read_onoff" || *name == "toggle") && *t_start > t_rm + 100 * MS {
                         if let Some((_, r, _)) = b_ends.get(i) {
                             if *r == 0xffff {
-                                out.violate("C07-old-credentials-still-work", format!("B's {name} started at {t_start} after RemoveFabric confirmed at {t_rm} succeeded; {}", describe()));
+                                out.violate(
+                                    if self.c01 { "C01-expelled-peer-admitted" } else { "C07-old-credentials-still-work" },
+                                    format!("B's {name} started at {t_start} after RemoveFabric confirmed at {t_rm} succeeded; {}", describe()),
+                                );
                             }
                         }
                     }
                 }
                 // A (untouched fabric) keeps working
-                if !self.faults && a.iter().filter(|(n, _, t)| *n == "read_onoff" && *t > t_rm).any(|(_, r, _)| *r != 0xffff) {
+                if !self.faults && !self.c01 && a.iter().filter(|(n, _, t)| *n == "read_onoff" && *t > t_rm).any(|(_, r, _)| *r != 0xffff) {
                     out.violate("C07-unrelated-fabric-disturbed", describe());
                 }
                 if c.iter().any(|(n, r, _)| *n == "commission" && *r == 0xffff) {
@@ -469,8 +485,8 @@ impl Scenario for RemoveFabric {
         }
         out.count("invariant_steps", track.steps);
         out.nontrivial = removed_at.is_some();
-        out.state_sigs.push(remove_at_ms as u64 / 500);
-        out.sample = Some(json!({"remove_at_ms": remove_at_ms,
+        out.state_sigs.push((remove_at_ms as u64 / 500) << 8 | b_reads as u64);
+        out.sample = Some(json!({"remove_at_ms": remove_at_ms, "b_reads_before_pause": b_reads,
             "A": a.iter().map(|(n, r, t)| format!("{n}:{r:x}@{}ms", t / 1000)).collect::<Vec<_>>(),
             "B": b.iter().map(|(n, r, t)| format!("{n}:{r:x}@{}ms", t / 1000)).collect::<Vec<_>>(),
             "C": c.iter().map(|(n, r, t)| format!("{n}:{r:x}@{}ms", t / 1000)).collect::<Vec<_>>()}));
@@ -627,12 +643,12 @@ pub fn defs() -> Vec<PropertyDef> {
                 fault_free: false,
             },
             Family {
-                scenario: Box::new(RemoveFabric { faults: false }),
+                scenario: Box::new(RemoveFabric { faults: false, c01: false }),
                 weight: 1,
                 fault_free: true,
             },
             Family {
-                scenario: Box::new(RemoveFabric { faults: true }),
+                scenario: Box::new(RemoveFabric { faults: true, c01: false }),
                 weight: 3,
                 fault_free: false,
             },
